@@ -1,1 +1,109 @@
-// placeholder
+//! C16 — small codecs: PageDiff bitfield (WAL entry header) and the overflow cell.
+
+use nomt::verif_api::beatree::{decode_cell, encode_cell, PageNumber};
+use nomt::verif_api::PageDiff;
+
+fn bit(b: &[u8; 16], i: usize) -> bool {
+    (b[i / 8] >> (i % 8)) & 1 == 1
+}
+
+/// from_bytes accepts exactly the bitmaps with the two reserved bits clear, and as_bytes is its
+/// inverse; changed(i) reads bit i of the little-endian bitmap; count is the population count.
+#[kani::proof]
+pub fn c16_pagediff_bytes_roundtrip() {
+    let b: [u8; 16] = kani::any();
+    let d = PageDiff::from_bytes(b);
+    let reserved = bit(&b, 126) || bit(&b, 127);
+    assert!(d.is_some() == !reserved);
+    if let Some(d) = d {
+        assert!(d.as_bytes() == b);
+        assert!(!d.cleared());
+        let i: usize = kani::any();
+        kani::assume(i < 126);
+        assert!(d.changed(i) == bit(&b, i));
+        let mut pop = 0usize;
+        let mut k = 0;
+        while k < 16 {
+            pop += b[k].count_ones() as usize;
+            k += 1;
+        }
+        assert!(d.count() == pop);
+        assert!(d.count() <= 126);
+    }
+    kani::cover!(reserved, "rejected bitmap");
+    kani::cover!(!reserved, "accepted bitmap");
+}
+
+/// set_changed(i) sets exactly bit i (and erases the clear marker); join is the bitwise union.
+#[kani::proof]
+pub fn c16_pagediff_set_and_join() {
+    let b: [u8; 16] = kani::any();
+    kani::assume(!bit(&b, 126) && !bit(&b, 127));
+    let mut d = PageDiff::from_bytes(b).unwrap();
+    let i: usize = kani::any();
+    kani::assume(i < 126);
+    d.set_changed(i);
+    let nb = d.as_bytes();
+    let j: usize = kani::any();
+    kani::assume(j < 128);
+    assert!(bit(&nb, j) == (bit(&b, j) || j == i));
+    let c: [u8; 16] = kani::any();
+    kani::assume(!bit(&c, 126) && !bit(&c, 127));
+    let e = PageDiff::from_bytes(c).unwrap();
+    let u = d.join(&e).as_bytes();
+    assert!(bit(&u, j) == (bit(&nb, j) || bit(&c, j)));
+    let mut cl = PageDiff::default();
+    cl.set_cleared();
+    assert!(cl.cleared());
+    cl.set_changed(i);
+    assert!(!cl.cleared() && cl.changed(i));
+    kani::cover!(true, "reached");
+}
+
+/// overflow cell: decode(encode(size, hash, pages)) gives back size, hash and the page numbers in
+/// order; the documented layout is le64(size) ++ hash ++ le32(pn)*.
+pub fn overflow_cell(n: usize) {
+    let size: usize = kani::any();
+    kani::assume(size <= 1 << 29);
+    let hash: [u8; 32] = kani::any();
+    let mut pns = [PageNumber(0); 4];
+    let mut i = 0;
+    while i < n {
+        pns[i] = PageNumber(kani::any());
+        i += 1;
+    }
+    let cell: &'static Vec<u8> = Box::leak(Box::new(encode_cell(size, hash, &pns[..n])));
+    assert!(cell.len() == 40 + 4 * n);
+    // documented layout
+    let mut s = 0u64;
+    let mut k = 0;
+    while k < 8 {
+        s |= (cell[k] as u64) << (8 * k);
+        k += 1;
+    }
+    assert!(s == size as u64);
+    let mut k = 0;
+    while k < 32 {
+        assert!(cell[8 + k] == hash[k]);
+        k += 1;
+    }
+    let (dsize, dhash, mut it) = decode_cell(&cell[..]);
+    assert!(dsize == size && dhash == hash);
+    let mut i = 0;
+    while i < n {
+        let p = it.next();
+        assert!(matches!(p, Some(x) if x.0 == pns[i].0));
+        i += 1;
+    }
+    assert!(it.next().is_none());
+    kani::cover!(true, "reached");
+}
+
+#[kani::proof]
+pub fn c16_overflow_cell_n1() {
+    overflow_cell(1)
+}
+#[kani::proof]
+pub fn c16_overflow_cell_n3() {
+    overflow_cell(3)
+}
